@@ -51,6 +51,12 @@ type cdpSnap struct {
 	Breaker   map[uint64]bool
 	Price     map[uint64]uint64
 	Active    map[uint64]bool
+	LimitBids []auctionsV2types.LimitOrderBid
+	LimitProt []auctionsV2types.LimitBidProtocolData
+	LimitFees map[uint64]sdk.Int // booked auction-module fees from limit bids, per debt asset
+	ExtFees   map[uint64]sdk.Int // booked fees of externally initiated auctions, per debt asset
+	BidsV2    map[uint64]auctionsV2types.Bid
+	Reserve   map[appAsset]sdk.Int // generation-2 app reserve funds
 }
 
 func modLabel(name string) string { return "mod:" + name }
@@ -110,6 +116,34 @@ func (u *cdpU) snap() *cdpSnap {
 	}
 	for _, au := range a.NewaucKeeper.GetAuctions(ctx) {
 		s.AucV2[au.AuctionId] = au
+	}
+	s.LimitFees, s.ExtFees, s.BidsV2, s.Reserve = map[uint64]sdk.Int{}, map[uint64]sdk.Int{}, map[uint64]auctionsV2types.Bid{}, map[appAsset]sdk.Int{}
+	{
+		st := ctx.KVStore(a.GetKey(auctionsV2types.StoreKey))
+		it := sdk.KVStorePrefixIterator(st, auctionsV2types.UserLimitBidMappingKeyPrefix)
+		for ; it.Valid(); it.Next() {
+			var lb auctionsV2types.LimitOrderBid
+			a.AppCodec().MustUnmarshal(it.Value(), &lb)
+			s.LimitBids = append(s.LimitBids, lb)
+		}
+		it.Close()
+	}
+	s.LimitProt = a.NewaucKeeper.GetAllLimitBidProtocolData(ctx)
+	for _, as := range u.assets {
+		if f, ok := a.NewaucKeeper.GetAuctionLimitBidFeeData(ctx, as.ID); ok {
+			s.LimitFees[as.ID] = f.Amount
+		}
+		if f, ok := a.NewaucKeeper.GetAuctionLimitBidFeeDataExternal(ctx, as.ID); ok {
+			s.ExtFees[as.ID] = f.Amount
+		}
+		for _, app := range u.cdpApps {
+			if rf, ok := a.NewliqKeeper.GetAppReserveFunds(ctx, app, as.ID); ok {
+				s.Reserve[appAsset{app, as.ID}] = rf.TokenQuantity.Amount
+			}
+		}
+	}
+	for _, b := range a.NewaucKeeper.GetUserBids(ctx) {
+		s.BidsV2[b.BiddingId] = b
 	}
 	for _, l := range a.LockerKeeper.GetLockers(ctx) {
 		s.Lockers[l.LockerId] = l
